@@ -1,6 +1,6 @@
 SPECIFICATION GenSpec
 CONSTANTS SmallIds = {1} Widths = {1} MaxTok = 1 MaxSlots = 9
-  Texts <- CTexts1 HRs <- CHRsAll
+  Texts <- CTextsF HRs <- CHRsAll
 CONSTRAINT Bound
 VIEW Skel
 ACTION_CONSTRAINT Emit
